@@ -168,3 +168,49 @@ func ZZ_C17_H4() {
 	zz.Assert("partitioned", d.Partitioned() == wantPart)
 	zz.Assert("same-site", d.SameSite() == c.SameSite())
 }
+
+// ZZ_C17_H3: URI assembled through the setters: Parse(FullURI()) yields the same scheme, host,
+// path, query and fragment, and FullURI of the parsed URI is identical (fixed point).
+// Stated preconditions (inputs outside them are not URIs the setters can round-trip by design):
+// host bytes from [a-z0-9.-] plus ':' (no authority delimiters, already lower-case); query and
+// fragment bytes are not control characters (FullURI emits them verbatim and the parser refuses
+// control characters); the query contains no '#'. The path ranges over ALL byte values.
+func ZZ_C17_H3() {
+	m := zz.Param("M", 2)
+	host := zz.Bytes("host", zz.Range("lhost", 1, m))
+	path := zz.Bytes("path", zz.Range("lpath", 0, zz.Param("P", 3)))
+	query := zz.Bytes("query", zz.Range("lquery", 0, m))
+	hash := zz.Bytes("hash", zz.Range("lhash", 0, m))
+	for _, c := range host {
+		zz.Assume((c >= 'a' && c <= 'z') || (c >= '0' && c <= '9') || c == '.' || c == '-' || c == ':')
+	}
+	for _, c := range query {
+		zz.Assume(c >= 0x20 && c != 0x7f && c != '#')
+	}
+	for _, c := range hash {
+		zz.Assume(c >= 0x20 && c != 0x7f)
+	}
+	https := zz.Bool("https")
+	var u URI
+	if https {
+		u.SetScheme("https")
+	} else {
+		u.SetScheme("http")
+	}
+	u.SetHostBytes(host)
+	u.SetPathBytes(path)
+	u.SetQueryStringBytes(query)
+	u.SetHashBytes(hash)
+	full := append([]byte(nil), u.FullURI()...)
+	zz.Observe("full", full)
+	var v URI
+	v.Parse(nil, append([]byte(nil), full...))
+	zz.Cover("reached-assert", true)
+	zz.Cover("has-query-and-hash", len(query) > 0 && len(hash) > 0)
+	zz.Assert("scheme", bytes.Equal(v.Scheme(), u.Scheme()))
+	zz.Assert("host", bytes.Equal(v.Host(), u.Host()))
+	zz.Assert("path", bytes.Equal(v.Path(), u.Path()))
+	zz.Assert("query", bytes.Equal(v.QueryString(), u.QueryString()))
+	zz.Assert("fragment", bytes.Equal(v.Hash(), u.Hash()))
+	zz.Assert("full-uri-fixed-point", bytes.Equal(v.FullURI(), full))
+}
